@@ -154,8 +154,9 @@ func (g *qGen) selSet(typeName string, depth int, sc *scope, fragBudget int, isR
 			set.Fields = append(set.Fields, f)
 		}
 		pt := 7
-		if isRoot {
-			pt = 12
+		if isRoot || typeName == g.a.Query || typeName == g.a.Mutation {
+			// kept rare at the root: it meets a known defect there
+			pt = 40
 		}
 		if r.Intn(pt) == 0 {
 			g.addTypename(set, sc, allAliased)
